@@ -48,7 +48,7 @@ VFILES = ["SelfCal/WeightModel.v", "SelfCal/WeightProofs.v", "SelfCal/LsqModel.v
           "SelfCal/PvalueProofs.v", "SelfCal/PvalueQI.v", "SelfCal/VMatrixModel.v", "SelfCal/VMatrixQI.v",
           "SelfCal/ExactOverModel.v", "SelfCal/ExactOverProofs.v", "SelfCal/ExactOverExample.v", "SelfCal/VMatrixProofs.v",
           "SelfCal/ExactOverPvalue.v", "SelfCal/ExactOverPhysical.v", "SelfCal/VMatrixNoise.v", "SelfCal/VMatrixNoiseProofs.v",
-          "SelfCal/VMatrixNoiseExample.v", "Properties_C18.v"]
+          "SelfCal/VMatrixNoiseExample.v", "SelfCal/ExactOverSatisfiable.v", "Properties_C18.v"]
 
 SIG_NF = [1e-6, 1e-4, 1e-2]
 SIG_TR = [None, 0.0, 1e-5, 1e-3, 1e-1]
@@ -391,13 +391,49 @@ def part_weight_tie(ctx, rec, wb, drv):
 
 
 # ------------------------------------------------------------------------------------------ set_m_error histories
+
+def _gen_merror_call(r, freqs, kind):
+    """lib/selfcal_gen.gen_merror_call plus the exits of the current vnacal_new_set_m_error:
+       one_fv_out   frequencies == 1 WITH a frequency vector whose single entry is far outside the calibration
+                    range: accepted, element 0 everywhere (the vector is not looked at, fix DC94)
+       mindx        own grid, ascending, in range, two knots closer than MIN_DX of the spline: rejected
+                    ("frequencies are too close together", before anything is written; fixes DI90 / DI93)
+       fv_negative  own grid whose first entry is negative: rejected (fix DC92)"""
+    def cmd(c):
+        fvt = "-" if c["fv"] is None else " ".join(G.fnum(x) for x in c["fv"])
+        return "merror %d %s %s %s" % (c["n"], fvt, " ".join(G.fnum(x) for x in c["nf"]),
+                                       "-" if c["tr"] is None else " ".join(G.fnum(x) for x in c["tr"]))
+    if kind == "one_fv_out":
+        c = G.gen_merror_call(r, freqs, "one_tr")
+        c["kind"] = kind
+        c["fv"] = [freqs[-1] * r.choice([3.0, 0.01])]
+        c["cmd"] = cmd(c)
+        return c
+    if kind in ("mindx", "fv_negative"):
+        c = G.gen_merror_call(r, freqs, "own_tr")
+        while len(c["fv"]) < 3:
+            c = G.gen_merror_call(r, freqs, "own_tr")
+        c["kind"] = kind
+        gf = list(c["fv"])
+        if kind == "mindx":
+            i = r.randrange(1, len(gf) - 1)
+            gf[i] = gf[i - 1] + r.choice([2e-5, 5e-5, 9e-5])      # ascending, gap below MIN_DX = 1e-4
+        else:
+            gf[0] = -1.0
+        tab = [(gf, ys, vals) for (_, ys, vals) in c["tab"]]          # never evaluated: the call is rejected
+        c["fv"], c["tab"] = gf, tab
+        c["cmd"] = cmd(c)
+        return c
+    return G.gen_merror_call(r, freqs, kind)
+
+
 def part_merror_histories(ctx, rec, exe, drv):
     """vnacal_new_set_m_error as a state machine (coq/SelfCal/C18MErrorModel.v, Section Args): histories of
     1..4 calls on ONE vnacal_new_t -- one point / calibration grid / own grid, with and without
     sigma_tr_vector, NULL / NULL, and calls that must be rejected -- the return value of every call and
     the stored vector after every call against the extracted run_args / returns over exact rationals."""
     rng = ctx.rng
-    kinds = G.MERR_VALID + ["invalid"]
+    kinds = G.MERR_VALID + ["one_fv_out", "invalid"]
     hists = []
     # every ordered pair of kinds (the second call sees the vector the first one left), then random
     # histories of 1, 3 and 4 calls
@@ -416,7 +452,8 @@ def part_merror_histories(ctx, rec, exe, drv):
         n = r.choice([1, 2])
         nfq = r.choice([1, 2, 3, 4])
         freqs = G.default_freqs(nfq)
-        calls = [G.gen_merror_call(r, freqs, k if k != "invalid" else r.choice(G.MERR_INVALID)) for k in hk]
+        calls = [_gen_merror_call(r, freqs, k if k != "invalid" else r.choice(G.MERR_INVALID + ["mindx", "fv_negative"]))
+                 for k in hk]
         sc = G.merror_history_scenario("mh%d_%s" % (i, "-".join(c["kind"] for c in calls)), typ, n, freqs, calls)
         sc.calls = calls
         scs.append(sc)
@@ -1333,6 +1370,10 @@ def run(ctx):
         "minimises, full column rank gives an answer); the term lists of the equations are data (white-box dump), build_equation_terms is not modelled",
         "GuardModel: the well-formedness premises of save / restore are those init_vvec_wf proves of the model of _vnacal_new_solve_init "
         "(tied); that the QR solve returns the least-squares minimiser is C19's subject",
+        "ofq (VMatrixModel: the conversion double -> double complex) is a Section variable; intended laws ofq 0 = 0, ofq 1 = 1, additive, "
+        "multiplicative, |z ofq(a)|^2 = a^2 |z|^2; the theorems assume none (they hold for every ofq), the instance conversion qi_of_Qc has them "
+        "(ofq_instance_laws_thm); en_gaps_ok of C18MErrorModel stands for the MIN_DX test of _vnacommon_spline_calc (C10's model; the driver uses "
+        "the binary64 value of 0.0001)",
         "OCaml extraction (ExtrOcamlBasic) and ocaml/glue.ml.inc; gcc, ASan/UBSan/LSan, valgrind; the python measurement oracle lib/selfcal_gen.py",
     ]
     ctx.assumptions = ["exact field arithmetic stands for binary64 arithmetic (rounding is outside every theorem)",
